@@ -160,7 +160,12 @@ fn cfun(c: &v1::Constraint) -> Function { c.function.clone().unwrap_or_default()
 
 pub fn c09() -> Outcome {
     let mut n = 0; let mut d = BTreeSet::new();
-    for (ii, i) in small_instances().into_iter().enumerate() { for uniform in [false, true] {
+    // every instance also with its largest-id variable fixed (substituted_value set, as partial_evaluate leaves it): it stays a decision variable of the instance
+    let mut insts = small_instances();
+    for mut i in small_instances() { let m = i.decision_variables.iter().map(|v| v.id).max().unwrap(); for v in i.decision_variables.iter_mut() { if v.id == m { v.substituted_value = Some(1.0); } } i.decision_variable_dependency.clear(); insts.push(i); }
+    // ... and with one more variable, fixed, whose id is the next free one (exactly where a careless "next id" would put the first weight)
+    for mut i in small_instances() { let m = i.decision_variables.iter().map(|v| v.id).max().unwrap(); let mut v = dv(m + 1, Kind::Continuous, None); v.substituted_value = Some(2.0); i.decision_variables.insert(0, v); insts.push(i); }
+    for (ii, i) in insts.into_iter().enumerate() { for uniform in [false, true] {
         n += 1; d.insert((ii, uniform));
         if ii == 2 { note(|| format!("{} on instance with active ids {:?}, removed ids {:?}", if uniform { "uniform_penalty_method" } else { "penalty_method" }, i.constraints.iter().map(|c| c.id).collect::<Vec<_>>(), i.removed_constraints.iter().map(|c| c.constraint.as_ref().unwrap().id).collect::<Vec<_>>())); }
         let p = match if uniform { i.clone().uniform_penalty_method() } else { i.clone().penalty_method() } { Ok(p) => p, Err(e) => fail!(n, d, "penalty method failed: {e}") };
@@ -200,7 +205,7 @@ pub fn c10() -> Outcome {
     let mut n = 0; let mut d = BTreeSet::new();
     let fs = plain_functions();
     // variables 1,2 are decision variables; ids 3 (and 4,5 via replacement functions) are parameters
-    for k in 0..fs.len() { for mode in 0..4 {
+    for k in 0..fs.len() { for mode in 0..5 {
         n += 1; d.insert((k, mode));
         let mut p = v1::ParametricInstance::default();
         p.decision_variables = vec![dv(1, Kind::Continuous, None), dv(2, Kind::Integer, Some((-3.0, 3.0)))];
@@ -216,18 +221,19 @@ pub fn c10() -> Outcome {
         let mut h = v1::ConstraintHints::default(); let mut oh = v1::OneHot::default(); oh.constraint_id = 5; oh.decision_variables = vec![1, 2]; h.one_hot_constraints = vec![oh];
         p.constraint_hints = Some(h);
         let mut params = v1::Parameters::default();
-        params.entries = match mode { 0 => [(3u64, 0.5), (4, -2.0)].into_iter().collect(), 1 => [(3u64, 0.5), (4, -2.0), (77, 9.0)].into_iter().collect(), 2 => [(3u64, 0.5)].into_iter().collect(), _ => HashMap::new() /* every declared parameter omitted */ };
+        let (pa, pb) = if mode == 4 { (2f64.powi(-60), 2f64.powi(60)) } else { (0.5, -2.0) };   // mode 4: a tiny and a huge parameter value (their product is 1)
+        params.entries = match mode { 0 | 4 => [(3u64, pa), (4, pb)].into_iter().collect(), 1 => [(3u64, 0.5), (4, -2.0), (77, 9.0)].into_iter().collect(), 2 => [(3u64, 0.5)].into_iter().collect(), _ => HashMap::new() /* every declared parameter omitted */ };
         if k == 3 { note(|| format!("with_parameters {:?} on objective {:?}", params.entries, fs[k])); }
         match p.clone().with_parameters(params.clone()) {
-            Err(e) => { if mode < 2 { fail!(n, d, "with_parameters failed although all parameters were given: {e}"); } }
+            Err(e) => { if mode < 2 || mode == 4 { fail!(n, d, "with_parameters failed although all parameters were given: {e}"); } }
             Ok(i) => {
-                if mode >= 2 { fail!(n, d, "with_parameters succeeded although a declared parameter was omitted (given: {:?})", params.entries); }
+                if mode == 2 || mode == 3 { fail!(n, d, "with_parameters succeeded although a declared parameter was omitted (given: {:?})", params.entries); }
                 if i.decision_variables != p.decision_variables || i.sense != p.sense || i.removed_constraints != p.removed_constraints || i.constraint_hints != p.constraint_hints { fail!(n, d, "with_parameters changed variables, sense, removed constraints or hints"); }
                 if i.parameters.as_ref().map(|q| &q.entries) != Some(&params.entries) { fail!(n, d, "supplied parameter values are not recorded on the result"); }
                 if i.constraints.iter().map(|c| (c.id, c.equality)).collect::<Vec<_>>() != p.constraints.iter().map(|c| (c.id, c.equality)).collect::<Vec<_>>() { fail!(n, d, "constraint ids/equalities changed"); }
                 for x in [[0.5, 1.0], [-1.0, 2.0], [3.0, -3.0]] {
                     let xs: HashMap<u64, f64> = [(1u64, x[0]), (2, x[1])].into_iter().collect();
-                    let mut full = xs.clone(); full.insert(3, 0.5); full.insert(4, -2.0);
+                    let mut full = xs.clone(); full.insert(3, pa); full.insert(4, pb);
                     let pairs: Vec<(Function, Function)> = std::iter::once((i.objective.clone().unwrap(), p.objective.clone().unwrap())).chain(i.constraints.iter().zip(p.constraints.iter()).map(|(a, b)| (cfun(a), cfun(b)))).collect();
                     for (a, b) in pairs {
                         let want = ref_val(&b, &full).unwrap();
